@@ -199,7 +199,15 @@ def gen_cmds(r,depth,n,in_div=False,in_chord=False,top=False):
         elif x<0.70: out.append(('v',r.randrange(0,160)))
         elif x<0.74: out.append(('q',r.randrange(1,130)))
         elif x<0.755: out.append(('t',r.randrange(0,6)))
-        elif x<0.76: out.append(('vrel',r.choice([1,-1])) if r.random()<0.7 else ('voice',r.randrange(1,129)))
+        elif x<0.76:
+            y=r.random()
+            if y<0.45: out.append(('vrel',r.choice([1,-1])))
+            elif y<0.6:
+                # a burst that crosses a bound, then a step back (state must stay clamped)
+                d=r.choice([1,-1]); out.extend([('vrel',d)]*r.randrange(3,18)); out.append(('note','c',0,False,None,None,None,None,None)); out.extend([('vrel',-d)]*r.randrange(1,3))
+            elif y<0.75:
+                d=r.choice([1,-1]); out.extend([('orel',d)]*r.randrange(3,12)); out.append(('note','d',0,False,None,None,None,None,None)); out.extend([('orel',-d)]*r.randrange(1,3))
+            else: out.append(('voice',r.randrange(1,129)))
         elif x<0.82 and depth>0 and not in_chord:
             nn=r.randrange(1,4); a=gen_cmds(r,depth-1,r.randrange(1,4),in_div=in_div)
             b=None if r.random()<0.5 else gen_cmds(r,depth-1,r.randrange(0,3),in_div=in_div)
